@@ -25,6 +25,9 @@ RULE = ("every third case also through Template(src, **options); one-tag skeleto
         "distinct = (setting, skeleton); non-trivial = some text contains whitespace next to a tag.")
 
 TEXTS = ["", " ", "\n", " \n ", "\t", "a", "a\n", " a"]
+# Python's full whitespace set (str.isspace / re \s): NBSP, EM SPACE, IDEOGRAPHIC SPACE, LS, PS, NEL, FS..US, OGHAM, ...
+UWS = ["\xa0", "\u2003", "\u3000", "\u2028", "\u2029", "\x85", "\x1c", "\x1d", "\x1e", "\x1f", "\u1680", "\u2000", "\u200a",
+       "\u202f", "\u205f", "\x0b", "\x0c"]
 CR_TEXTS = ["\r", "\r\n", " \r ", "\r  ", "a\r", "\r\r", " \r\n ", "", "a"]
 
 
@@ -143,6 +146,12 @@ def run(ctx):
         "whole-template refinement (spec_trim on skeletons of arbitrary length) is compared by the extracted run and Coq-checked only on the one-tag enumeration",
     ]
     ctx.proof("C12")
+    bad = L.probe_whitespace_table()
+    ctx.case(sample={"probe": "whitespace table of the model / spec vs re \\s, str.isspace, str.rstrip over all code points", "disagreements": len(bad)}, key="ws-table")
+    if bad:
+        ctx.model_mismatch("is_space table vs running interpreter", {"code_points": bad[:20]}, "table", "interpreter", None)
+    else:
+        ctx.validated()
     # the options reach the lexer in Environment.__init__'s order also through Template(...): regenerated facts
     try:
         from . import c13
@@ -203,11 +212,20 @@ def run(ctx):
         n = ctx.rng.randint(1, 6)
         parts = []
         for i in range(n):
-            parts.append("".join(ctx.rng.choice([" ", " ", "\n", "\t", "a", "b\n", "\x0b", "\x0c"]) for _ in range(ctx.rng.randint(0, 4))))
+            parts.append("".join(ctx.rng.choice([" ", " ", "\n", "\t", "a", "b\n", "\x0b", "\x0c", ctx.rng.choice(UWS)]) for _ in range(ctx.rng.randint(0, 4))))
             parts.append(ctx.rng.choice(tags1))
         parts.append("".join(ctx.rng.choice([" ", "\n", "\t", "a"]) for _ in range(ctx.rng.randint(0, 3))))
         sks.append((ctx.rng.choice(["default", "default", "angle", "dollar", "asp", "line", "linepct"]), skel(parts)))
 
+    # indentation / adjacent whitespace made of every non-ASCII whitespace character (alone, mixed with blanks,
+    # after a line break, around a letter), in front of and behind every block / comment / variable tag kind
+    uws_tags = [g for g in tags1 if g[0] in "bcv"] + [g for g in tags1 if g.startswith("r:") and g.endswith(":e")][:6]
+    for u in UWS:
+        for shape in (u, " " + u, "\n" + u, "a\n" + u + " ", u + "a", "a" + u):
+            for g in ctx.rng.sample(uws_tags, ctx.size(6, len(uws_tags))):
+                other = ctx.rng.choice(["", "\n", u, "b"])
+                parts = [shape, g, other] if ctx.rng.random() < 0.7 else [other, g, shape]
+                sks.append((ctx.rng.choice(["default", "default", "asp", "line"]), skel(parts)))
     cases = []
     for name, k in sks:
         sts = settings if name == "default" and k.count("/") <= 2 else [ctx.rng.choice(settings), (True, True)]
